@@ -198,7 +198,12 @@ def format_code(
             for funcdef in core.filter_nodes(node.body, fdef_types)
         }
         assignments = {node.id for node in parsing.iter_assignments(module)}
-        preserve = set(preserve) | defs | class_funcs | assignments
+        class_assignments = {  # Attributes assigned directly under a class definition in module scope
+            f"{node.name}.{target.id}"
+            for node in core.filter_nodes(module.body, ast.ClassDef)
+            for target in parsing.iter_assignments(node)
+        }
+        preserve = set(preserve) | defs | class_funcs | assignments | class_assignments
 
     if minimum_indent == 0:
         source = fixes.add_missing_imports(source)
